@@ -52,11 +52,16 @@ class ByteArray(bytes):
   def validate(self):
     """Validates the content of the instance.
 
-    The content is always valid, as values cannot be modified directly (see
-    below) and trying to create from invalid data will raise an exception. So
-    the validation method is only a placeholder which always does nothing.
+    The values are always valid, as they cannot be modified directly (see
+    above) and trying to create from invalid data will raise an exception.
+    However, an empty array cannot be represented in a H field.
+
+    Raises:
+      gfapy.ValueError: If the array is empty.
     """
-    pass
+    if len(self) == 0:
+      raise gfapy.ValueError(
+        "ByteArray is empty: an array without values cannot be represented")
 
   def _default_gfa_tag_datatype(self):
     """GFA tag datatype to use by default"""
